@@ -64,10 +64,7 @@ func H_C05_acceptCallbacks() { acceptStep(alphaShrinkCallbacks) }
 
 func acceptStep(alpha []uint8) {
 	k := 4
-	L := 3
-	if thorough() {
-		L = 4
-	}
+	L := 3 // the thorough tier widens the alphabet, not the buffers (4-word buffers do not complete)
 	p := newVProg("p", k, 0, alpha, nil)
 	tb := newVTB("S")
 
